@@ -35,7 +35,6 @@ except Exception:  # noqa: BLE001
     ANCHORS = list(ANCHORS_A)
 
 SOLVERS = ["anneal", "lns", "alns", "tabu", "evolve"]
-KNOWN_LNS = "C19-lns-best-lost"  # id of the (now repaired) finding; only honoured if listed as open
 
 
 # ====================================================================================== spaces
@@ -1264,20 +1263,23 @@ def fam_W(rng, solver, big):
     return out
 
 
-XVALS = [1e308, -1e308, 1.7976931348623157e308, "inf", "-inf", 0.0, -0.0, 2.0**60, -(2.0**60), 2.0**60 + 256, 2.0**60 - 128, 5e-324, -5e-324, 1e-300,
-         0.1 + 0.2, 0.3, 33, 33.0, 1, 1.0, -1, 2**60, -(2**60) + 1]
+XVALS = [0.0, -0.0, 2.0**60, -(2.0**60), 2.0**60 + 256, 2.0**60 - 128, 5e-324, -5e-324, 1e-300, 0.1 + 0.2, 0.3, 33, 33.0, 1, 1.0, -1, 2**60,
+         -(2**60) + 1, 1e15, -1e15 + 0.5]
+XOUTSIDE = [1e308, -1e308, 1.7976931348623157e308, "inf", "-inf", "nan", 1e300]  # outside the property (POLICY_X): observation only
 
 
 def fam_X(rng, solver, big):
     """float extremes: +-1e308 (differences overflow to inf), +-inf, +-0.0, denormals, 2^60 next to -2^60, 0.1+0.2 vs 0.3, ints next
-    to equal floats; NaN (unordered: only 'raises or stays faithful'); ints where floats are expected and vice versa."""
+    to equal floats; ints where floats are expected and vice versa (a TypeError is fine there).  NaN, +-inf and |v| >= 1e300 are
+    outside the property (coordinator's POLICY_X): such cases are run, counted in the histogram `observation_only`, never judged."""
     case = gen_case(rng, solver, big, enc=rng.choice(["int", "list", "str", "tuple", "big"]), space_kind="line")
     sp = case["space"]
     n = len(sp.pop("table"))
     sp["float"] = False
-    nan = rng.random() < 0.2
-    sp["fvals"] = [rng.choice(XVALS + (["nan", "nan", "nan"] if nan else [])) for _ in range(n)]
-    case.update(family="X", nocoq=True, may_raise=nan)
+    outside = rng.random() < 0.25
+    sp["fvals"] = [rng.choice(XVALS + (XOUTSIDE * 2 if outside else [])) for _ in range(n)]
+    outside = any(isinstance(v, str) or abs(v) >= 1e300 for v in sp["fvals"])
+    case.update(family="X", nocoq=True, may_raise=False, observe_only=outside)
     if case["seed"] is None:
         case["seed"] = rng.randrange(10**6)
     r = rng.random()
@@ -1510,58 +1512,75 @@ def all_cases(ctx):
     return cases
 
 
+def work_case(case):
+    """worker: run one case, judge it, cut its traces into Coq terms - only the digest travels back to the parent"""
+    runs = run_case(case)
+    a, b = runs[0], runs[1]
+    eff = a.get("case") or case  # class A2: the case as edited in place
+    d = {"eff": eff if a.get("case") else None, "status": a["status"], "result": a.get("result"), "error": a.get("error"),
+         "mirror": b.get("result") or b.get("error"), "nruns": 3 + (runs[3] is not None),
+         "bads": [(tag, w) for tag, rr, w in judge_all(case, runs)], "events": sorted(events_of(eff, a)),
+         "nontrivial": nontrivial(eff, a), "nlog": len(a["log"]), "stats": {}, "coq": [], "shape_fail": []}
+    if a["status"] == "ok":
+        sv, st = eff["solver"], d["stats"]
+        st[f"{sv}.main_loop_iterations"] = a["result"]["iterations"]
+        st[f"{sv}.objective_evaluations"] = a["result"]["evaluations"]
+        if sv == "tabu":
+            st["tabu.candidates_in_one_iteration"] = max([len(t[1]) for t in a["tokens"] if t[0] == "nb"] or [0])
+            if eff.get("move_unique"):
+                st["tabu.tabu_list_length"] = min(opt(eff, "cooldown"), a["result"]["iterations"])
+        if sv == "evolve":
+            n_ = len(eff["population"])
+            st["evolve.children_per_generation"] = n_ - min(max(int(opt(eff, "elite_size")), 0), n_)
+            st["evolve.population_size"] = n_
+        if sv in ("lns", "alns", "tabu") and a["result"]["iterations"] < opt(eff, "max_iter"):
+            st[f"{sv}.no_improve_counter"] = a["result"]["iterations"]
+    if not eff.get("observe_only"):
+        for rr in (a, b):
+            if rr["status"] != "ok" or len(rr["log"]) > COQ_MAX_EVALS or eff.get("nocoq"):
+                continue
+            try:
+                kind, term, spec = coq_case(eff, rr)
+            except TraceShape as e:
+                d["shape_fail"].append((str(e), rr.get("result"), rr["tokens"][:40]))
+                continue
+            want_spec = rr is a or eff["family"] in ("M", "L")  # the Coq spec checker: primary runs (both runs for M and L)
+            d["coq"].append((kind, term, spec if want_spec else None, rr["result"]))
+    return d
+
+
 def run_part_a(ctx: Ctx):
     cases = all_cases(ctx)
-    known = {f["id"] for f in ctx.open_findings()}
     # heaviest first, small chunks: the few work-volume cases must not queue up behind each other in one worker
     cases.sort(key=lambda c: -(int(opt(c, "max_iter")) * (len(c["population"]) if c["solver"] == "evolve" else len(c.get("steps", [1])))))
     import time as _t
     _t0 = _t.time()
-    results = pmap(run_case, cases, chunksize=2)
+    results = pmap(work_case, cases, chunksize=2)
     ctx.extra["t_impl_runs_s"] = round(_t.time() - _t0, 1)
     terms = {k: [] for k in CORR}
     metas = {k: [] for k in CORR}
     specs, spec_meta = [], []
     shape_fail = []
     loop_max = {}
-
-    def lm(key, v):
-        loop_max[key] = max(loop_max.get(key, 0), int(v))
-
-    for case, runs in zip(cases, results):
-        a, b = runs[0], runs[1]
-        case = a.get("case") or case  # class A2: the case as edited in place
-        if a["status"] == "ok":
-            sv = case["solver"]
-            lm(f"{sv}.main_loop_iterations", a["result"]["iterations"])
-            lm(f"{sv}.objective_evaluations", a["result"]["evaluations"])
-            if sv == "tabu":
-                lm("tabu.candidates_in_one_iteration", max([len(t[1]) for t in a["tokens"] if t[0] == "nb"] or [0]))
-                if case.get("move_unique"):
-                    lm("tabu.tabu_list_length", min(opt(case, "cooldown"), a["result"]["iterations"]))
-            if sv == "evolve":
-                n_ = len(case["population"])
-                lm("evolve.children_per_generation", n_ - min(max(int(opt(case, "elite_size")), 0), n_))
-                lm("evolve.population_size", n_)
-            if sv in ("lns", "alns", "tabu") and a["result"]["iterations"] < opt(case, "max_iter"):
-                lm(f"{sv}.no_improve_counter", a["result"]["iterations"])
-        ctx.evaluations += 3 + (runs[3] is not None)
+    for case, d in zip(cases, results):
+        case = d["eff"] or case
+        for k, v in d["stats"].items():
+            loop_max[k] = max(loop_max.get(k, 0), int(v))
+        ctx.evaluations += d["nruns"]
         ctx.count("solver", case["solver"])
         ctx.count("family", case["family"])
         ctx.count("max_iter", min(int(opt(case, "max_iter")), 100))
         ctx.count("point_encoding", case["space"].get("enc", "-"))
-        ctx.count("status", a["status"] if a["status"] != "ok" else a["result"]["status"])
-        for e in events_of(case, a):
+        ctx.count("status", d["status"] if d["status"] != "ok" else d["result"]["status"])
+        for e in d["events"]:
             ctx.count("event", e)
-        if a["status"] == "ok":
-            ctx.count("evals_bucket", min(len(a["log"]) // 10 * 10, 100))
-            ctx.count("iters_vs_max", "early" if a["result"]["iterations"] < opt(case, "max_iter") else "full")
-        bads = []
-        for tag, rr, w in judge_all(case, runs):
-            if KNOWN_LNS in known and rejected_improvement(case, rr) and "worse than evaluated" in w:
-                ctx.known_hit(KNOWN_LNS, f"{w} (case seed {case['seed']})")
-                continue
-            bads.append(f"{case['solver']} [{case['family']}] {tag}: {w}")
+        if d["status"] == "ok":
+            ctx.count("evals_bucket", min(d["nlog"] // 10 * 10, 100))
+            ctx.count("iters_vs_max", "early" if d["result"]["iterations"] < opt(case, "max_iter") else "full")
+        if case.get("observe_only"):
+            ctx.count("observation_only", f"{case['solver']}:{d['status']}" + (":oracle-would-object" if d["bads"] else ""))
+            continue
+        bads = [f"{case['solver']} [{case['family']}] {tag}: {w}" for tag, w in d["bads"]]
         if bads and len(ctx.violations) < 8:
             small = shrink(case)
             sr = run_case(small)
@@ -1569,23 +1588,18 @@ def run_part_a(ctx: Ctx):
             ctx.violation(sb[0], {"case": small, "impl": {"primary": sr[0].get("result") or sr[0].get("error"),
                                                           "mirror": sr[1].get("result") or sr[1].get("error")}})
         elif bads:
-            ctx.violation(bads[0], {"case": case, "impl": {"primary": a.get("result") or a.get("error")}})
-        if nontrivial(case, a):
+            ctx.violation(bads[0], {"case": case, "impl": {"primary": d["result"] or d["error"]}})
+        if d["nontrivial"]:
             ctx.nontriv(json.dumps(case, sort_keys=True))
-        ctx.sample({"case": {k: case[k] for k in ("solver", "family", "seed", "minimize")}, "result": a.get("result")}, 3)
-        for rr in (a, b):
-            if rr["status"] != "ok" or len(rr["log"]) > COQ_MAX_EVALS or case.get("nocoq"):
-                continue
-            try:
-                kind, term, spec = coq_case(case, rr)
-            except TraceShape as e:
-                shape_fail.append((case, rr, str(e)))
-                continue
+        ctx.sample({"case": {k: case[k] for k in ("solver", "family", "seed", "minimize")}, "result": d["result"]}, 3)
+        for msg, res, toks in d["shape_fail"]:
+            shape_fail.append((case, {"result": res, "tokens": toks}, msg))
+        for kind, term, spec, res in d["coq"]:
             terms[kind].append(term)
-            metas[kind].append((case, rr))
-            if rr is a or case["family"] in ("M", "L"):  # the Coq spec checker: primary runs (both runs for M and L)
+            metas[kind].append((case, {"result": res}))
+            if spec is not None:
                 specs.append(spec)
-                spec_meta.append((case, rr))
+                spec_meta.append((case, {"result": res}))
             ctx.traces_validated += 1
 
     ctx.extra["max_loop_counts"] = dict(sorted(loop_max.items()))
@@ -1597,10 +1611,9 @@ def run_part_a(ctx: Ctx):
     spec_fail = ctx.coq_check("spec", IMPORTS, "speccase", "spec_ok", specs, shard=200)
     for i in spec_fail:
         case, rr = spec_meta[i]
-        if not (KNOWN_LNS in known and rejected_improvement(case, rr)):
-            if not any(v["replay"].get("case") == case for v in ctx.violations) and not ctx.violations:
-                ctx.violation(f"{case['solver']}: Coq spec checker obs_spec_check rejects the implementation's result "
-                              f"{rr['result']} against the recorded log", {"case": case, "impl": rr["result"]})
+        if not any(v["replay"].get("case") == case for v in ctx.violations) and not ctx.violations:
+            ctx.violation(f"{case['solver']}: Coq spec checker obs_spec_check rejects the implementation's result "
+                          f"{rr['result']} against the recorded log", {"case": case, "impl": rr["result"]})
 
     ctx.notes += [
         "C19/A: objective values are exact Python ints or integral floats (exact comparisons); rounding of other float-valued objectives is outside the theorems",
@@ -1608,6 +1621,7 @@ def run_part_a(ctx: Ctx):
         "C19/A: identity of a solution = index of its evaluation; the returned solution is matched by VALUE AND TYPE against deep copies taken at call time",
         "C19/A: seed reproducibility is a property of random.Random (trusted, tested by running each case twice on the same input objects)",
         "C19/A: tabu cooldown>=1 and a non-empty evolve population are assumed (the code raises IndexError otherwise); since dcd4794 a tabu SOLUTION may be the object None (corpus/C19/tabu_none_solution.json)",
+        "C19/A: NaN, +-inf and |v| >= 1e300 as objective values are outside the property: generated, run, counted (histogram observation_only), never judged",
         "C19/A: shift invariance (f+c gives the same trajectory, objective+c) is a metamorphic oracle for exact-integer objectives only",
     ]
 
